@@ -127,8 +127,13 @@ void buildCase(const JV& c, size_t k, std::string& out) {
 			skinShape(gen, shape, nb, [&](uint16_t v) {
 				std::vector<std::pair<int, float>> w;
 				int b = int((size_t(v) * nb) / nv);
-				w.emplace_back(b, 0.75f);
-				w.emplace_back((b + 1) % int(nb), 0.25f);
+				// no wrap-around: the partitions of the two halves get different bone palettes ({0,1,2}, {1,2,3})
+				if (b + 1 < int(nb)) {
+					w.emplace_back(b, 0.75f);
+					w.emplace_back(b + 1, 0.25f);
+				}
+				else
+					w.emplace_back(b, 1.0f);
 				return w;
 			});
 			if (c["parts"].b && gen.GetHeader().GetBlock<NiSkinInstance>(shape->SkinInstanceRef())) {
